@@ -630,11 +630,27 @@ func c09r7(c *Ctx) {
 				}
 			case *ast.AssignStmt:
 				for i, l := range s.Lhs {
-					if prog.IsField(info, "store.Meta.RecSize")(l) && len(s.Rhs) == 1 && i == 1 {
+					if !prog.IsField(info, "store.Meta.RecSize")(l) {
+						continue
+					}
+					fromSizes := false
+					if len(s.Rhs) == 1 && i == 1 {
 						if call, ok := prog.Unparen(s.Rhs[0]).(*ast.CallExpr); ok && prog.CalleeKey(info, call) == "store.Record.Sizes" {
-							// on every call: a record read back from a file carries RecSize = vsz
-							okR = len(f.GuardsAt(s)) == 0
+							fromSizes = true
 						}
+					}
+					if !fromSizes && len(s.Rhs) == len(s.Lhs) {
+						srcs := f.SourcesAt(s.Rhs[i], s)
+						fromSizes = len(srcs) > 0
+						for _, src := range srcs {
+							if !(src.Kind == "call" && src.Key == "store.Record.Sizes" && src.Idx == 1) {
+								fromSizes = false
+							}
+						}
+					}
+					// on every call: a record read back from a file carries RecSize = vsz
+					if fromSizes {
+						okR = len(f.GuardsAt(s)) == 0
 					}
 				}
 			}
